@@ -14,7 +14,7 @@ HRP = "pysmt.printers.HRPrinter"
 HRL = "pysmt.parsing.HRLexer"
 
 EXPLANATION = (
-    "Abstract interpretation of both directions composed.  SMT-LIB: for ~130 concrete skeletons (every "
+    "Abstract interpretation of both directions composed.  SMT-LIB: for ~190 concrete skeletons (every "
     "operator, constants of every kind, arrays, functions, parametric sorts, quantifiers, names that need "
     "quoting or collide with let names) the script written by the interpreted export path, in tree and in "
     "let-DAG form, is read back by the interpreted SmtLibParser and get_last_formula is the very same node "
